@@ -170,6 +170,13 @@ try:
 except ImportError:
     pass
 
+try:
+    import gen_lines
+    MODULES['Lines'] = gen_lines.generate
+    MODULES['LinesMutants'] = gen_lines.generate_mutants
+except ImportError:
+    pass
+
 def main():
     args = sys.argv[1:]
     repo = '/repo'
